@@ -18,7 +18,8 @@ import XlVerif.Lemmas.C12Splitext
 namespace XlVerif.Props.C12
 open XlVerif XlVerif.Model.C12 XlVerif.Lemmas.C12
 
-/-! ## 1. Table obligations (re-checked against the regenerated `Gen.C12` on every run) -/
+/-! ## 1. Table obligations (re-checked against the regenerated `Gen.C12` on every run; the tables are
+  observations of what the running code does — probes and introspection —, not readings of its source) -/
 
 /-- writer and reader test the extension the same way: both (or neither) lower-case it, and against the
     same set of extensions -/
@@ -28,6 +29,15 @@ theorem ext_tests_agree :
 /-- … and that set is {`.gz`, `.gzip`}, compared case-insensitively -/
 theorem ext_tests_spec :
     writerTest.lowers = true ∧ sameSet writerTest.exts Spec.C12.gzipExts = true := by decide
+
+/-- the model's codec choice (`os.path.splitext`, lower-casing, membership in the extension table) explains every
+    raw observation of the probe: for each probed file name — extensions in every spelling, dots in directories,
+    leading dots, trailing dots, blanks, non-ASCII — the model says "gzip" exactly when the file was written
+    compressed, and exactly when the reader went through gzip -/
+theorem codec_probe_agrees :
+    (Gen.C12.codecProbe.all fun row =>
+      (decide (writerTest.opener (·.map lowerChar) row.1 = .gzip) == row.2.1) &&
+      (decide (readerTest.opener (·.map lowerChar) row.1 = .gzip) == row.2.2)) = true := by decide
 
 /-- every key the reader asks for was written, from the attribute it is assigned to; every dict of the
     model is restored; no key is written twice or needs escaping; the reader can compile (`build_code`) -/
